@@ -1227,7 +1227,6 @@ func revocationSequenceStream(pool [][]byte) {
 		steps := 2 + r.Rand.Intn(3)
 		var prevAnswer [][]byte
 		prevKind := ""
-		shape := ""
 		var trail []string
 		for k := 0; k < steps; k++ {
 			host := hostA
@@ -1260,7 +1259,6 @@ func revocationSequenceStream(pool [][]byte) {
 			port := []string{"80", "443", "8080"}[r.Rand.Intn(3)]
 			trail = append(trail, fmt.Sprintf("%q:%s %s fail=%v script=%s", host, port, ipList(answer), fail, scriptArg(script)))
 			in := map[string]any{"fn": "revdial-sequence", "allow": hosts, "attempt": k, "attempts": append([]string{}, trail...)}
-			shape += kind[:1+strings.Index(kind, "-")+1]
 			guard("revocation-sequence", in, func() {
 				delete(res.table, hostA)
 				delete(res.table, hostB)
@@ -1309,7 +1307,6 @@ func revocationSequenceStream(pool [][]byte) {
 			prevAnswer, prevKind = answer, kind
 		}
 		r.Count(fmt.Sprintf("class:revseq-%d-attempts", steps))
-		_ = shape
 	}
 }
 
